@@ -100,7 +100,7 @@ def random_history(rng):
             a, b = rng.choice([(4, 5), (5, 4)])
             did[0] += 1
             if dgq[b] < 5:
-                lines.append("sendto %d %d %d %d" % (a, b, did[0], rng.choice([2, 10, 500, 1400])))
+                lines.append("sendto %d %d %d %d" % (a, b, did[0], rng.choice([0, 1, 2, 10, 500, 1400])))
                 dgq[b] += 1
         else:
             a = rng.choice([4, 5])
@@ -150,6 +150,10 @@ def life_scenarios(rng):
         s = ["scenario", "new 1 %d tcp" % fam, "bind 1", "listen 1", "new 2 %d tcp" % fam, "set 2 blocking 0", "connect 2 1", "set 2 timeout 500", "iowait 2 2", "ccr 2", "getters 2",
              "set 1 timeout 500", "accept 3 1", "addrs 2", "addrs 3", "addrs 1", "bufsize 2 0 8192", "bufsize 3 1 8192", "set 3 timeout 40", "iowait 3 1", "send 2 9", "sleepms 30", "iowait 3 1", "recv 3 20",
              "iowait 1 1", "new 7 %d tcp" % fam, "connect 7 1", "iowait 1 1", "accept 8 1", "addrs 8", "addrs 7"] + udp_pair(fam) + ["addrs 4", "set 4 timeout 40", "iowait 4 1", "sendto 5 4 1 10", "sleepms 20", "iowait 4 1", "iowait 4 2"]
+        out.append(s)
+        # empty and one-byte datagrams are datagrams: delivered in order with the sender's address, in blocking and non-blocking mode
+        s = ["scenario"] + udp_pair(fam) + ["set 4 timeout 300", "sendto 5 4 1 10", "sendto 5 4 2 0", "sendto 5 4 3 1", "sendto 5 4 4 20", "sleepms 20",
+                                            "recvfrom 4 100", "recvfrom 4 100", "recvfrom 4 100", "recvfrom 4 100", "set 4 blocking 0", "sendto 5 4 5 0", "sleepms 20", "recvfrom 4 100", "recvfrom 4 100"]
         out.append(s)
         # a listen call that fails leaves the socket as it was: later option calls still take effect and the getters show them
         s = ["scenario"] + udp_pair(fam) + ["getters 4", "listen 4", "set 4 backlog 7", "getters 4", "set 4 backlog 2", "getters 4", "listen 4", "set 4 backlog 11", "getters 4",
